@@ -161,6 +161,8 @@ type Config struct {
 	Perm    []int  `json:"perm,omitempty"`  // registration order of universe types
 	Types   []int  `json:"types,omitempty"` // universe subset used by the generator
 	WeakOn  bool   `json:"weak,omitempty"`  // track weak pointers (C11)
+	Split   int    `json:"split,omitempty"` // number of universe types registered before the gap
+	Gap     int    `json:"gap,omitempty"`   // padding types registered between the universe types (IDs in different mask words, equal bit positions)
 	Move    int    `json:"move,omitempty"`  // fault: every Move-th new table / archetype moves the storage's list to a new array (0 = never)
 	Profile string `json:"profile,omitempty"`
 }
